@@ -108,6 +108,66 @@ def one(sid, rnd, nx, ni, with_dir, hold, invoke_pos, lat=0, dot=False):
     return s.done()
 
 
+def second_generation(sid, rnd, nx, ni, trigger, held_kind):
+    """the same barrier in a later generation: the invocation after a reset (timeout / runtime exit) initialises the
+    environment again inline; one party (an extension's or the runtime's poll) is held back - nobody is served
+    before it has arrived"""
+    exts = ["e%d" % (i + 1) for i in range(nx)]
+    subs = {e: rnd.choice([["INVOKE"], ["INVOKE"], []]) for e in exts}
+    ints = {"i%d" % (i + 1): ["INVOKE"] for i in range(ni)}
+    s = Scn(sid, ext=exts, timeout_ms=500, opWaitMs=6000, onTerm={e: "exit" for e in exts})
+    s.meta(family="initbarrier", kind="second-generation", subs=subs, internal=ints, trigger=trigger, held=held_kind)
+    tags = s.boot(subs)
+    s.round(tags, subs)
+    it = s.invoke(size=4, seed=1)
+    s.wait(tags["rt"])
+    for e in exts:
+        if "INVOKE" in subs[e]:
+            s.wait(tags["ext:" + e])
+    if trigger == "crash":
+        s.exit("rt", code=1)
+    s.wait(it)
+    # ---- second generation
+    m = s.mark()
+    it = s.invoke(size=6, seed=2)
+    parties = ["ext:" + e for e in exts] + ["int:" + i for i in ints]
+    held = "rt" if held_kind == "rt" or not parties else rnd.choice(parties)
+    for e in exts:
+        s.await_exec(base=e, since=m)
+        s.register("ext:" + e, subs[e])
+    s.await_exec(kind="rt", since=m)
+    for i in ints:
+        s.register("int:" + i, ints[i])
+    tags = {}
+    order = [w for w in parties + ["rt"] if w != held]
+    rnd.shuffle(order)
+    for w in order:
+        tags[w] = s.poll(w)
+    s.sleep(rnd.choice([60, 120]))
+    tags[held] = s.poll(held)
+    listeners = [w for w in parties if "INVOKE" in (subs.get(w[4:]) if w.startswith("ext:") else ints.get(w[4:]))]
+    s.wait(tags["rt"])
+    for w in listeners:
+        s.wait(tags[w])
+    s.call("rt", "response", id="current", body="second-generation")
+    for w in ["rt"] + listeners:
+        tags[w] = s.poll(w)
+    s.wait(it)
+    return s.done()
+
+
+def second_generation_scenarios(ctx):
+    rnd = random.Random(ctx.seed * 31 + 3)
+    out = []
+    n = 0
+    for nx, ni in ((1, 0), (2, 0), (1, 1), (0, 1)) if ctx.quick else ((1, 0), (2, 0), (3, 0), (1, 1), (0, 1), (2, 1), (0, 2)):
+        for trigger in ("timeout", "crash"):
+            for held_kind in ("agent", "rt"):
+                n += 1
+                out.append(second_generation("c03-g2-%02d" % n, rnd, nx, ni, trigger, held_kind))
+    return out
+
+
 def _independent(a, held, exts):
     """does arrival a not depend on the held-back arrival?"""
     kind, who = a
@@ -164,7 +224,8 @@ def run(ctx):
     # forced schedules through the pause points of /repo (-tags verif)
     sc.run_families(ctx, forced.scenarios('c03', ('clear-vs-invoke', 'register-vs-close')), "forced-schedule")
     ctx.assumptions += sc.ASSUME
-    sc.run_families(ctx, scenarios(ctx) + [init_error_held("c03-ieh1", "ext"), init_error_held("c03-ieh2", "int")], "initbarrier")
+    sc.run_families(ctx, scenarios(ctx) + [init_error_held("c03-ieh1", "ext"), init_error_held("c03-ieh2", "int")]
+                    + second_generation_scenarios(ctx), "initbarrier")
     ctx.coverage["exhaustive"] = False
 
 
